@@ -27,7 +27,7 @@ PROPS = {
     "C07": dict(
         lean=["GoatSpec.Properties.C07"],
         streams=["runtime-ops"],
-        e2e=[],
+        e2e=["track"],
         trusted=["modelled, not verified: Go semantics of the rendered template (array indexing, uint32 arithmetic, strconv.Atoi, strings.Split, map lookup), sync/atomic (one Track call = one atomic step), net/http request parsing, encoding/json; tied by compiling and running the real rendered code (runtime-ops)",
                  "Go-side oracles of runtime-ops outside the model: md5 `version` of the items, item names TRACK_ID_<id>, app name/version labels, HELP/TYPE lines of /metrics (flag h1 in the canonical answer)",
                  "canonicalisation in the harness: /track items inside a run of equal sort keys are put in ascending id order (sort.Slice is unstable); runtime panic texts mapped to {div0, oob i len}"],
